@@ -1,7 +1,7 @@
 (* Corr.v — comparison of model outputs with the implementation's observables,
    evaluated by vm_compute from generated case files (definitions only). *)
 From Coq Require Import ZArith List Bool Lia.
-From Dendro Require Import Base Tree Grid GridIso AxisPerm Criteria Compute Index Prune PruneGhost Newick IO DEq Cache Plot Moments Stats Catalog Flux Viewer.
+From Dendro Require Import Base Tree Grid GridIso AxisPerm Rounding Criteria Compute Index Prune PruneGhost Newick IO DEq Cache Plot Moments Stats Catalog Flux Viewer.
 Import ListNotations.
 Open Scope Z_scope.
 
@@ -206,3 +206,8 @@ Definition relab_ok (c : relab_case) : bool :=
   let '(shape, r, shape', pos) := c in
   list_eqb Z.eqb (relab_shape shape r) shape' &&
   list_eqb Z.eqb (map (relab_map shape r) (zseq (Z.to_nat (size shape)))) pos.
+
+(* ---- conversion of a 64-bit integer to a double (Rounding.v) against Python's float(int):
+   (integer, int(float(integer))) *)
+Definition rounding_case : Type := Z * Z.
+Definition rounding_ok (c : rounding_case) : bool := to_double (fst c) =? snd c.
